@@ -51,6 +51,10 @@ def _case(draw):
         "mid_vals": draw(st.lists(_v, min_size=3, max_size=3)),
         "mid_leaf": draw(st.lists(st.sampled_from([-1, 0, 1, 2, 3, 0, 1, 2, 3, 1]), min_size=3, max_size=3)),
         "init_a": draw(st.sampled_from([-1, 0, 1, 2, 0, 1, 2])), "init_c": draw(st.sampled_from([-1, 0, 1, 2, 3, 0, 1, 2, 3])),
+        # sub-objects that are falsy (a container-like Parameterized that is empty) are still attached objects
+        "falsy": draw(st.sampled_from([False, False, False, True])),
+        # the k-th invocation of one dependent method raises (the operation that caused it fails; what follows must still hold)
+        "raise_on_call": draw(st.one_of(st.none(), st.none(), st.tuples(st.integers(0, nm - 1), st.integers(1, 3)).map(list))),
         "ops": draw(st.lists(_ops, min_size=1, max_size=12)),
     }
 
@@ -59,16 +63,28 @@ def strategy(tier):
     return _case()
 
 
+class _Boom(Exception):
+    pass
+
+
 def execute(case):
     res = Result()
-    Leaf = type("Leaf", (param.Parameterized,), {"x": param.Number(0), "y": param.Number(0)})
-    Mid = type("Mid", (param.Parameterized,), {"z": param.Number(0), "b": param.ClassSelector(class_=Leaf, default=None)})
+    extra = {"__len__": lambda self: 0} if case.get("falsy") else {}
+    Leaf = type("Leaf", (param.Parameterized,), dict({"x": param.Number(0), "y": param.Number(0)}, **extra))
+    Mid = type("Mid", (param.Parameterized,), dict({"z": param.Number(0), "b": param.ClassSelector(class_=Leaf, default=None)}, **extra))
+    if case.get("falsy"):
+        res.label("falsy_subobjects")
+    roc = case.get("raise_on_call")
+    ncalls = {}
     ns = {"a": param.ClassSelector(class_=Mid, default=None), "c": param.ClassSelector(class_=Leaf, default=None)}
     calls = []
     for i, deps in enumerate(case["methods"]):
         def mk(i):
             def m(self):
                 calls.append(i)
+                ncalls[i] = ncalls.get(i, 0) + 1
+                if roc and roc[0] == i and ncalls[i] == roc[1] and armed[0]:
+                    raise _Boom(f"m{i} call {ncalls[i]}")
             m.__name__ = f"m{i}"
             return m
         ns[f"m{i}"] = param.depends(*deps, watch=True)(mk(i))
@@ -83,8 +99,11 @@ def execute(case):
         kw["a"] = mids[case["init_a"]]
     if case["init_c"] >= 0:
         kw["c"] = leaves[case["init_c"]]
+    armed = [False]
     top = Top(**kw)
     del calls[:]
+    ncalls.clear()
+    armed[0] = True
 
     def reach(spec):
         """list of (component key, value) reached through the current path"""
@@ -142,10 +161,19 @@ def execute(case):
         del calls[:]
         detached_target = False
         same_object = False
+        boomed = []
+
+        def do(fn):
+            try:
+                fn()
+            except _Boom:
+                boomed.append(True)
+                res.label("dependent_method_raised")
+
         if k == "attach_mid":
             old = top.a
             same_object = old is not None and op[1] >= 0 and mids[op[1]] is old
-            top.a = mids[op[1]] if op[1] >= 0 else None
+            do(lambda: setattr(top, "a", mids[op[1]] if op[1] >= 0 else None))
             if old is not None and top.a is not old:
                 hist["replaced"].add(id(old))
                 if top.a is not None:
@@ -155,7 +183,7 @@ def execute(case):
             old = mid.b
             detached_target = id(mid) not in reach_before
             same_object = old is not None and op[2] >= 0 and leaves[op[2]] is old
-            mid.b = leaves[op[2]] if op[2] >= 0 else None
+            do(lambda: setattr(mid, "b", leaves[op[2]] if op[2] >= 0 else None))
             if old is not None and mid.b is not old and not detached_target:
                 hist["replaced"].add(id(old))
                 if mid.b is not None:
@@ -163,7 +191,7 @@ def execute(case):
         elif k == "attach_c":
             old = top.c
             same_object = old is not None and op[1] >= 0 and leaves[op[1]] is old
-            top.c = leaves[op[1]] if op[1] >= 0 else None
+            do(lambda: setattr(top, "c", leaves[op[1]] if op[1] >= 0 else None))
             if old is not None and top.c is not old:
                 hist["replaced"].add(id(old))
                 if top.c is not None:
@@ -171,18 +199,21 @@ def execute(case):
         elif k == "set_leaf":
             leaf = leaves[op[1]]
             detached_target = id(leaf) not in reach_before
-            setattr(leaf, op[2], op[3])
+            do(lambda: setattr(leaf, op[2], op[3]))
             if id(leaf) in hist["replaced"]:
                 hist["assigned_after_replace"].add(id(leaf))
         elif k == "set_mid":
             mid = mids[op[1]]
             detached_target = id(mid) not in reach_before
-            mid.z = op[2]
+            do(lambda: setattr(mid, "z", op[2]))
             if id(mid) in hist["replaced"]:
                 hist["assigned_after_replace"].add(id(mid))
         after = [vector(d) for d in case["methods"]]
         ever_attached |= reachable()
         for i, deps in enumerate(case["methods"]):
+            if boomed:
+                res.dontcare += 1       # a method raised: which other methods of the aborted dispatch still ran is not claimed
+                break
             n = calls.count(i)
             b, a = before[i], after[i]
             keys = set(b) | set(a)
